@@ -39,7 +39,9 @@ impl JmWriteGuard {
                 *final(w) == (World { sealed: final(w).sealed, removed: final(w).removed, ..*old(w) }),
     { unimplemented!() }
 }
-pub struct Database { pub supervisor: Supervisor, pub is_poisoned: PoisonSignal }
+pub struct DbConfig { pub manual_journal_persist: bool }
+pub struct Database { pub supervisor: Supervisor, pub is_poisoned: PoisonSignal, pub config: DbConfig }
+impl Clone for Database { #[verifier::external_body] fn clone(&self) -> (r: Database) ensures r == *self { unimplemented!() } }   // Arc clone: same instance
 impl Clone for Keyspace {
     // Arc clone: same handle
     #[verifier::external_body]
